@@ -5,6 +5,8 @@
 // is assumed not to touch it. Comment-only file.
 package storage
 
+//@ implements (*BoltDB) (WalletDB)
+
 //@ func (WalletDB).IncrementKeysetCounter(keysetId, num)
 //@   trusted
 //@   modifies wdb.counter
@@ -79,5 +81,20 @@ package storage
 //@   trusted
 //@   pure
 //@ func (WalletDB).GetMeltQuoteById
+//@   trusted
+//@   pure
+//@ func (WalletDB).SaveMnemonicSeed
+//@   trusted
+//@   pure
+//@ func (WalletDB).GetSeed
+//@   trusted
+//@   pure
+//@ func (WalletDB).GetMnemonic
+//@   trusted
+//@   pure
+//@ func (WalletDB).UpdateKeysetMintURL
+//@   trusted
+//@   pure
+//@ func (WalletDB).Close
 //@   trusted
 //@   pure
